@@ -99,10 +99,19 @@ theorem iterate_fits (fuel : Nat) : ∀ (b : Bytes) (src : Option Nat) (l : List
           · exact ih _ _ rest hi v hv
       · simp only [hf, if_false, R.ok_bind] at h; cases h; intro v hv; cases hv
 
-/-- the loop body over the yielded views is the model's fold over their parsed records -/
-theorem pmt_loop (pid pn : Nat) (sect : Slice) (ha : specPmtAccept sect.bytes) (views : List Slice) :
+/-- ANY loop body that, on a complete entry, does what `pmtBody` does (whatever the order of its
+statements), run over the yielded views, is the model's fold over their parsed records -/
+theorem pmt_loop (pid pn : Nat) (sect : Slice)
+    (f : Slice → PmtProcessor × Ctx × List (Change Handler) × List Nat → R (PmtProcessor × Ctx × List (Change Handler) × List Nat))
+    (hf : ∀ (v : Slice) (reg : List Nat) (c : Ctx) (q : List (Change Handler)) (seen : List Nat), streamFits v.bytes →
+      f v (⟨pid, pn, reg⟩, c, q, seen)
+        = .ok (⟨pid, pn, reg ++ [(streamAt v.bytes).pid]⟩,
+            (pmtStep pid (specPcrPid sect.bytes) (specProgramDescBytes sect.bytes) (c, q) (streamAt v.bytes).info).1,
+            (pmtStep pid (specPcrPid sect.bytes) (specProgramDescBytes sect.bytes) (c, q) (streamAt v.bytes).info).2,
+            seen ++ [(streamAt v.bytes).pid]))
+    (views : List Slice) :
     (∀ v ∈ views, streamFits v.bytes) → ∀ (reg : List Nat) (c : Ctx) (q : List (Change Handler)) (seen : List Nat),
-    forEach views ((⟨pid, pn, reg⟩ : PmtProcessor), c, q, seen) (pmtBody sect)
+    forEach views ((⟨pid, pn, reg⟩ : PmtProcessor), c, q, seen) f
       = .ok (⟨pid, pn, reg ++ views.map fun v => (streamAt v.bytes).pid⟩,
           ((views.map fun v => (streamAt v.bytes).info).foldl (pmtStep pid (specPcrPid sect.bytes) (specProgramDescBytes sect.bytes)) (c, q)).1,
           ((views.map fun v => (streamAt v.bytes).info).foldl (pmtStep pid (specPcrPid sect.bytes) (specProgramDescBytes sect.bytes)) (c, q)).2,
@@ -112,7 +121,7 @@ theorem pmt_loop (pid pn : Nat) (sect : Slice) (ha : specPmtAccept sect.bytes) (
   | cons v vs ih =>
     intro hall reg c q seen
     unfold forEach
-    rw [pmtBody_eq pid pn reg sect v c q seen (hall v (List.mem_cons_self ..)) ha]
+    rw [hf v reg c q seen (hall v (List.mem_cons_self ..))]
     simp only []
     rw [ih (fun w hw => hall w (List.mem_cons_of_mem _ hw))]
     simp [List.append_assoc]
@@ -181,14 +190,20 @@ theorem tie_stmt_pmt_new_table (pid pn : Nat) (reg : List Nat) (c : Ctx) (q : Li
     obtain ⟨it, views, hs, hi, hmap, hfit⟩ := pmt_views sect ha
     rw [hs]
     simp only [R.ok_bind]
-    show (forIter PmtGen.StreamInfoIter.next (it.buf.len + 1) it ((⟨pid, pn, reg⟩ : PmtProcessor), c, q, ([] : List Nat)) (pmtBody sect)
-        >>= fun st => PmtProcessor.remove_outdated st.1 st.2.2.1 st.2.2.2 >>= fun r => R.ok (r.1, st.2.1, r.2)) = _
-    rw [forIter_of_iterate _ _ _ _ _ _ hi, pmt_loop pid pn sect ha views hfit]
+    rw [forIter_of_iterate _ _ _ _ _ _ hi]
+    rw [pmt_loop pid pn sect _ (by
+      -- the translated loop body, with the application plugged in, on a complete entry: every bind is a
+      -- checked read that succeeds, so the order of the statements does not matter
+      intro v reg' c' q' seen' hv
+      simp only [streamType_ok v hv, elementaryPid_ok v hv, R.ok_bind, R.pure_eq, appConstructRaw, reqOfRaw,
+        pmtPcrPid_eq sect.bytes (by have := ha.1; omega), pmtDescriptorBytes_eq sect.bytes ha, R.bind_assoc]
+      rfl) views hfit]
     simp only [R.ok_bind, List.nil_append]
     have hp : (views.map fun v => (streamAt v.bytes).pid) = ((specStreams (specStreamBytes sect.bytes)).1.map StreamEnc.info).map StreamInfo.pid := by
       rw [← hmap, List.map_map]; rfl
     rw [tie_stmt_pmt_remove_outdated, hmap, hp, pmt_fold_queue]
     simp only [R.bind_assoc, R.ok_bind]
+    try rfl
 
 /-- TIE: `PmtProcessor::section` with the harness application plugged in IS the model's
 `App.pmtSection`, the model's changes appended to whatever was already queued -/
